@@ -455,8 +455,8 @@ pub fn exhaustive(nmax: usize) -> Vec<Case> {
 
 pub fn run(ctx: &Ctx, known: &[Known]) -> Report {
     let (gen_cases, nmax) = match ctx.tier {
-        Tier::Quick => (150_000, 5),
-        Tier::Thorough => (3_000_000, 8),
+        Tier::Quick => (400_000, 5),
+        Tier::Thorough => (8_000_000, 8),
     };
     let ex = exhaustive(nmax);
     let mut stats = run_list(&ex, &check, known);
